@@ -2,12 +2,12 @@
     option, unit, list, prod, sumbool map to OCaml's; N, Z, positive, nat stay the
     inductive types of Coq.  No [Extract Constant] of ours. *)
 From Coq Require Import Extraction ExtrOcamlBasic.
-From Borno Require Import Base Num Unicode Token Lexer Ast Parser Value Eval Cli Render FlagEval FlagCli.
+From Borno Require Import Base Num Unicode Token Lexer Ast Parser Value Eval Cli Nfc Render FlagEval FlagCli.
 Extraction Language OCaml.
 Set Extraction KeepSingleton.
 Extraction "bornomodel.ml"
   main run_source run_file repl fmain frun_file frepl rotate_sched lex parse outcome_str tokens_str parse_str
-  text_num parse_float literal_value f_of_bits f_to_bits digits_val decimal_of_Z
+  nfc text_num parse_float literal_value f_of_bits f_to_bits digits_val decimal_of_Z
   translit is_digit is_alpha is_alnum is_letter is_mark is_space trim_space
   tkind_code native_code all_natives native_name native_arity
   f_add f_sub f_mul f_div f_mod f_sqrt f_round f_abs f_neg f_of_Z to_int64 wrap64
